@@ -8,6 +8,20 @@ import sys, os, time, json, argparse, importlib, traceback
 from . import common
 
 
+def _kill_children():
+    """worker processes which a (changed) implementation left behind must not outlive the check: they would keep the
+    caller's output pipe open"""
+    try:
+        import psutil
+        for c in psutil.Process().children(recursive=True):
+            try:
+                c.kill()
+            except Exception:
+                pass
+    except Exception:
+        pass
+
+
 def main():
     import gc, logging
     logging.disable(logging.WARNING)      # catch(warn=True) logs every dropped example
@@ -43,6 +57,7 @@ def main():
         except Exception:
             pass
         print(f'VIOLATION property={prop} replay={path} no-failing-input-found', flush=True)
+        _kill_children()
         os._exit(1)
     _timer = threading.Timer(900 if args.tier == 'quick' else 4 * 3600, _hung)
     _timer.daemon = True
@@ -144,6 +159,7 @@ def main():
           f'cases={cov.get("programs", cov.get("evaluations"))} violations={len(violations)} '
           f'known={len(seen)} wall={time.time() - t0:.1f}s')
     sys.stdout.flush(); sys.stderr.flush()
+    _kill_children()
     os._exit(rc)          # no interpreter finalisation: after a detected deadlock wedged (daemon) threads of the implementation are still around
 
 
